@@ -5,6 +5,8 @@ import DcmVerif.Model.Orient
 import DcmVerif.Model.Time
 import DcmVerif.Model.Stack
 import DcmVerif.Model.Filter
+import DcmVerif.Model.Json
+import DcmVerif.Model.Extract
 /-! `dcmdriver`: one JSON object per input line, one JSON answer per line.  Values of metadata
 are opaque strings (the harness sends the canonical JSON text of each value), so equality in the
 model is string equality. -/
@@ -82,6 +84,30 @@ def getOrnt (j : Json) : Except String (List (Nat × Bool)) := do
 
 def orntJson (o : List (Nat × Bool)) : Json :=
   Json.arr (o.map fun p => Json.arr #[(p.1 : Json), Json.bool p.2]).toArray
+
+def getVal : Nat → Json → Except String Js.Val
+  | 0, _ => .error "value too deep"
+  | fuel + 1, j => do
+    let a ← j.getArr?
+    match a.toList with
+    | [t] => if (← t.getStr?) == "n" then pure .null else .error "bad val"
+    | [t, x] =>
+      match (← t.getStr?) with
+      | "b" => pure (.bool (← x.getBool?))
+      | "num" => pure (.num (← x.getStr?))
+      | "s" => pure (.str (← x.getStr?))
+      | "a" => do
+        let items ← (← x.getArr?).toList.mapM (getVal fuel)
+        pure (.arr items)
+      | "o" => do
+        let fs ← (← x.getArr?).toList.mapM fun kv => do
+          let p ← kv.getArr?
+          match p.toList with
+          | [k, v] => pure (← k.getStr?, ← getVal fuel v)
+          | _ => .error "bad field"
+        pure (.obj fs)
+      | _ => .error "bad val tag"
+    | _ => .error "bad val"
 
 def getFiles (j : Json) : Except String (List Stk.F) := do
   (← j.getArr?).toList.mapM fun e => do
@@ -295,6 +321,34 @@ def handle (j : Json) : Except String Json := do
   | "clear_slice_meta" =>
     let e ← getExt (← j.getObjVal? "ext")
     pure (extJson e.clearSliceMeta)
+  | "dumps" =>
+    let v ← getVal 200 (← j.getObjVal? "val")
+    pure (Json.str (Js.dumps v))
+  | "tokens" =>
+    let v ← getVal 200 (← j.getObjVal? "val")
+    pure (Json.bool (match Js.decode (Js.vsize v) (Js.encode v) with
+      | some (w, []) => Js.encode w == Js.encode v
+      | _ => false))
+  | "extract_keys" =>
+    let rules ← getStrList (← j.getObjVal? "rules")
+    let ts ← (← (← j.getObjVal? "translators").getArr?).toList.mapM fun t => do
+      let a ← t.getArr?
+      match a.toList with
+      | [n, e, c] => pure ({ name := ← n.getStr?, tagElem := ← e.getNat?, privCreator := ← c.getStr? } : Ex.Translator)
+      | _ => .error "bad translator"
+    let es ← (← (← j.getObjVal? "elems").getArr?).toList.mapM fun e => do
+      let cj ← e.getObjVal? "creator"
+      let creator ← if cj.isNull then pure none else (cj.getStr?).map some
+      let tj ← e.getObjVal? "trans_keys"
+      let tk ← if tj.isNull then pure none else (getStrList tj).map some
+      pure ({ group := ← (← e.getObjVal? "g").getNat?, elem := ← (← e.getObjVal? "e").getNat?,
+              keyword := ← (← e.getObjVal? "kw").getStr?, name := ← (← e.getObjVal? "name").getStr?,
+              blankStr := ← (← e.getObjVal? "blank").getBool?, isSeq := ← (← e.getObjVal? "seq").getBool?,
+              seqEmpty := ← (← e.getObjVal? "seq_empty").getBool?,
+              valueNone := ← (← e.getObjVal? "none").getBool?, creator := creator, transKeys := tk } : Ex.Elem)
+    pure (match Ex.extractKeys rules ts es with
+      | none => Json.str "ValueError"
+      | some ks => Json.arr (ks.map Json.str).toArray)
   | _ => .error s!"unknown op {op}"
 
 partial def loop (hin hout : IO.FS.Stream) : IO Unit := do
